@@ -232,10 +232,10 @@ def run(ctx):
     res.floor("R19.3", "render::options calls in _render_options_section", len(ro), 2)
     for c in ro:
         e = expr(ros, c.args[1])
-        res.check(re.search(r"partition\(", e) is not None, "R19.3", "options-from-partition", c.where(), "rendered arguments are one side of a partition of the visible arguments",
+        res.check(re.search(r"partition\(", e) is not None, "R19.3", "effect|options-from-partition", c.where(), "rendered arguments are one side of a partition of the visible arguments",
                   "_render_options_section renders %s: not a side of a `partition` of the visible arguments" % e[:100])
     narrow = [c for t in tree(ros) for c in t.calls_to(r"Iterator>?::(take_while|skip_while|take|skip|nth|step_by|find|position|rposition|last|map_while)$", r"Vec(<[^>]*>)?::(drain|truncate|split_off|pop|remove|swap_remove|retain|dedup\w*)$")]
-    res.check(not narrow, "R19.3", "options-sections-cover-all", ros.where(), "no positional narrowing of the argument lists",
+    res.check(not narrow, "R19.3", "effect|options-sections-cover-all", ros.where(), "no positional narrowing of the argument lists",
               "_render_options_section selects arguments with %s: arguments of a heading that are not adjacent in definition order are rendered nowhere" % sorted(set(c.callee_q.rsplit("::", 1)[1] for c in narrow)))
 
     # ---- R19.2b the section predicates say exactly "there is a visible item" (a narrower test drops a section that has something to show)
